@@ -53,6 +53,18 @@ Proof. reflexivity. Qed.
 Lemma tie_c04_mailbox_text : f_c04_mailbox_text =
   "func NewMailBox(r Receiver) MailBox { box := MailBox(make(chan Mail, 10)) go func() { for { mail, ok := <-box if !ok { return } err := r.Receive(mail.Msg, mail.From) if err != nil { log.Printf("""", mail.Msg.Header, err) } } }() return box }".
 Proof. reflexivity. Qed.
+(* the optional wrappers of the reply channel: Tracer builds a fresh one around the channel of the
+   message at hand (statistics and/or traces enabled), and their Send ends in that channel's Send: the
+   answer of LMbox goes to the connection the mail came from, whatever the settings of the object *)
+Lemma tie_c04_tracer_text : f_c04_tracer_text =
+  "func (o *objectImpl) Tracer(msg *net.Message, from Channel) Channel { if o.statsEnabled { from = &statChannel{from, time.Now(), o} } if !o.traceEnabled { return from } traceID := o.nextTrace o.nextTrace++ o.Trace(msg, traceID) return &tracedChannel{from, o, traceID} }".
+Proof. reflexivity. Qed.
+Lemma tie_c04_statchannel_send_text : f_c04_statchannel_send_text =
+  "func (c *statChannel) Send(msg *net.Message) error { c.o.updateMethodStatistics(msg.Header.Action, time.Since(c.since)) return c.Channel.Send(msg) }".
+Proof. reflexivity. Qed.
+Lemma tie_c04_tracedchannel_send_text : f_c04_tracedchannel_send_text =
+  "func (c *tracedChannel) Send(msg *net.Message) error { c.tracer.Trace(msg, c.id) return c.Channel.Send(msg) }".
+Proof. reflexivity. Qed.
 (* generated Receive methods switch on the action only (this is what makes noncall_runs a defect of the stubs) *)
 Lemma tie_c04_stub_switch_object : f_c04_stub_switch_object =
   "msg.Header.Action".
